@@ -9,4 +9,5 @@ CONSTANTS
   IgnoreSize = TRUE
   Emit = FALSE
 INVARIANTS Injective
+ALIAS Shown
 CHECK_DEADLOCK FALSE
